@@ -688,7 +688,13 @@ class Rechunk(ArrayExpr):
         # ``tokenize`` on any pickling failure.
         try:
             non_array = [self.operand(p) for p in self._parameters if p != "array"]
-            return "rechunk-merge-rc1" + hash_buffer_hex(_dumps5((self.array._name, *non_array)))
+            child = self.array._name
+            if getattr(self.array, "_name_is_exact", False):
+                # an exact (user-supplied or derived) name does not identify
+                # the source: two from_array(..., name="n") calls are told
+                # apart by their tokens only
+                child = (child, self.array.deterministic_token)
+            return "rechunk-merge-rc1" + hash_buffer_hex(_dumps5((child, *non_array)))
         except Exception:
             return "rechunk-merge-" + tokenize(*self.operands)
 
